@@ -145,6 +145,7 @@ succeeds and its output `out`
   `data` of that length;
 * cuts, for every `v`, exactly the major indices / values of the entries with
   minor index `v` in storage order;
+* has all its indices `< nMajor`;
 * has strictly increasing indices in every slice if the input's indices are
   unique within each major slice;
 * denotes the transposed dense matrix. -/
@@ -155,6 +156,7 @@ theorem transpose_correct {α} (zero : α) (M : Mat α) (nMajor nMinor : Nat) (B
     ∃ out, transposeOnDisk M nMinor none B = .ok out ∧
       WFptr out.indptr nMinor M.indices.length ∧
       out.indices.length = M.indices.length ∧ out.data.length = M.indices.length ∧
+      (∀ x ∈ out.indices, x < nMajor) ∧
       (∀ v, v < nMinor →
         slice out.indices (ptr out.indptr v) (ptr out.indptr (v + 1))
           = ((entriesOf M).filter (·.minor == v)).map (·.major) ∧
@@ -169,11 +171,12 @@ theorem transpose_correct {α} (zero : α) (M : Mat α) (nMajor nMinor : Nat) (B
     apply hr
     rw [← entriesOf_map_minor M hlen]
     exact List.mem_map_of_mem he
-  refine ⟨canonOut (entriesOf M) nMinor, ?_, ?_, ?_, ?_, ?_, ?_, ?_⟩
+  refine ⟨canonOut (entriesOf M) nMinor, ?_, ?_, ?_, ?_, ?_, ?_, ?_, ?_⟩
   · exact transposeOnDisk_eq M nMinor none B hlo hc hlen hr
   · rw [← entriesOf_length M hlen]; exact canonOut_wfptr _ _ hE
   · rw [← entriesOf_length M hlen]; exact (canonOut_lengths _ _ hE).1
   · rw [← entriesOf_length M hlen]; exact (canonOut_lengths _ _ hE).2
+  · exact canonOut_indices_lt M nMajor nMinor w
   · intro v hv; exact canonOut_slice _ _ _ hv
   · intro hn v hv
     rw [(canonOut_slice _ _ _ hv).1]
@@ -191,6 +194,40 @@ example : SlicesNodup M0 3 := by
 example : transposeOnDisk M0 3 none ⟨2, 2, 1⟩
     = .ok ⟨[0, 2, 3, 5], [0, 2, 1, 0, 2], [1, 4, 3, 2, 5]⟩ := rfl
 example : toDense 0 M0 3 3 = [[1, 0, 2], [0, 3, 0], [4, 0, 5]] := by decide
+
+/-- **`involution`** — transposing twice (CSC → CSR → CSC, any two budgets)
+gives arrays that denote the original matrix again, now in canonical form:
+indices strictly increasing within every slice (whatever their order in the
+input), pointer array monotone from 0 to the number of stored entries. -/
+theorem involution {α} (zero : α) (M : Mat α) (nMajor nMinor : Nat) (B1 B2 : Budget)
+    (hlo1 : 1 ≤ B1.lo) (hc1 : 1 ≤ B1.loCount) (hlo2 : 1 ≤ B2.lo) (hc2 : 1 ≤ B2.loCount)
+    (w : WFptr M.indptr nMajor M.indices.length) (hlen : M.data.length = M.indices.length)
+    (hr : ∀ x ∈ M.indices, x < nMinor) (hn : SlicesNodup M nMajor) :
+    ∃ out1 out2, transposeOnDisk M nMinor none B1 = .ok out1 ∧
+      transposeOnDisk out1 nMajor none B2 = .ok out2 ∧
+      toDense zero out2 nMajor nMinor = toDense zero M nMajor nMinor ∧
+      WFptr out2.indptr nMajor M.indices.length ∧
+      (∀ i, i < nMajor →
+        (slice out2.indices (ptr out2.indptr i) (ptr out2.indptr (i + 1))).Pairwise (· < ·)) := by
+  obtain ⟨out1, e1, w1, l1, d1, r1, _, s1, t1⟩ :=
+    transpose_correct zero M nMajor nMinor B1 hlo1 hc1 w hlen hr
+  have w1' : WFptr out1.indptr nMinor out1.indices.length := by rw [l1]; exact w1
+  have hn1 : SlicesNodup out1 nMinor := by
+    intro v hv
+    have := s1 hn v hv
+    exact this.imp (fun h => Nat.ne_of_lt h)
+  obtain ⟨out2, e2, w2, l2, _, _, _, s2, t2⟩ :=
+    transpose_correct zero out1 nMinor nMajor B2 hlo2 hc2 w1' (by omega) r1
+  refine ⟨out1, out2, e1, e2, ?_, ?_, ?_⟩
+  · rw [t2, t1]
+    exact transposeDense_involutive zero _ nMajor nMinor (toDense_length _ _ _ _)
+      (toDense_rows_length zero M nMajor nMinor)
+  · rw [← l1]; exact w2
+  · exact s2 hn1
+
+example : (transposeOnDisk (⟨[0, 2, 3, 5], [2, 0, 1, 2, 0], [2, 1, 3, 5, 4]⟩ : Mat Nat)
+              3 none ⟨1, 1, 1⟩ >>= fun o => transposeOnDisk o 3 none ⟨2, 3, 1⟩)
+    = .ok ⟨[0, 2, 3, 5], [0, 2, 1, 0, 2], [1, 2, 3, 4, 5]⟩ := rfl
 
 /-- **`transpose_slice`** — *"for any sub-range of the minor axis"*: with
 `indices_slice = (a, b)`, `a ≤ b ≤ nMinor`, the serial transposition succeeds
